@@ -557,6 +557,8 @@ CORPUS += [
 UTF = "rl4co/models/rl/common/utils.py"
 CORPUS += [
     # ---------------------------------------------------------------- C20
+    V("C20", "factory-exp-beta-swallowed", "rl4co/models/rl/reinforce/baselines.py", "RolloutBaseline(bl_alpha=bl_alpha), warmup_epochs, warmup_exp_beta", "RolloutBaseline(bl_alpha=bl_alpha), n_epochs=warmup_epochs, exp_beta=warmup_exp_beta", "C20.e"),
+    V("C20", "eq-factory-keywords-declared", "rl4co/models/rl/reinforce/baselines.py", "RolloutBaseline(bl_alpha=bl_alpha), warmup_epochs, warmup_exp_beta", "RolloutBaseline(bl_alpha=bl_alpha), n_epochs=warmup_epochs, warmup_exp_beta=warmup_exp_beta", None),
     V("C20", "welford-delta2-before-mean-update", UTF, "        delta = batch - self.mean\n        self.mean += (delta / self.count).sum()\n        # newvalues - newMeant\n        delta2 = batch - self.mean", "        delta = batch - self.mean\n        delta2 = batch - self.mean\n        self.mean += (delta / self.count).sum()", "C20.a"),
     V("C20", "welford-count-after-mean", UTF, "        self.count += len(batch)\n\n        # newvalues - oldMean\n        delta = batch - self.mean\n        self.mean += (delta / self.count).sum()", "        # newvalues - oldMean\n        delta = batch - self.mean\n        self.mean += (delta / self.count).sum()\n        self.count += len(batch)", "C20.a"),
     V("C20", "welford-m2-delta-squared", UTF, "self.M2 += (delta * delta2).sum()", "self.M2 += (delta * delta).sum()", "C20.a"),
@@ -577,6 +579,28 @@ CORPUS += [
 DSF = "rl4co/data/dataset.py"
 CORPUS += [
     # ---------------------------------------------------------------- C17
+    V("C17", "extrakey-write-through", "rl4co/data/dataset.py", "data = self.data[idx].copy()", "data = self.data[idx]", "C17.c"),
+    V("C17", "eq-extrakey-dict-copy", "rl4co/data/dataset.py", "data = self.data[idx].copy()", "data = dict(self.data[idx])", None),
+    V("C17", "reinforce-rewrap-before-baseline-update", "rl4co/models/rl/reinforce/reinforce.py", """        self.baseline.epoch_callback(
+            self.policy,
+            env=self.env,
+            batch_size=self.val_batch_size,
+            device=get_lightning_device(self),
+            epoch=self.current_epoch,
+            dataset_size=self.data_cfg["val_data_size"],
+        )
+        # Need to call super() for the dataset to be reset
+        super().on_train_epoch_end()
+""", """        super().on_train_epoch_end()
+        self.baseline.epoch_callback(
+            self.policy,
+            env=self.env,
+            batch_size=self.val_batch_size,
+            device=get_lightning_device(self),
+            epoch=self.current_epoch,
+            dataset_size=self.data_cfg["val_data_size"],
+        )
+""", "C17.e"),
     V("C17", "rollout-loader-shuffled", BLF, "dl = DataLoader(dataset, batch_size=batch_size, collate_fn=dataset.collate_fn)\n\n        rewards", "dl = DataLoader(dataset, batch_size=batch_size, shuffle=True, collate_fn=dataset.collate_fn)\n\n        rewards", "C17.b"),
     V("C17", "rollout-loader-drop-last", BLF, "dl = DataLoader(dataset, batch_size=batch_size, collate_fn=dataset.collate_fn)\n\n        rewards", "dl = DataLoader(dataset, batch_size=batch_size, drop_last=True, collate_fn=dataset.collate_fn)\n\n        rewards", "C17.b"),
     V("C17", "rollout-default-collate", BLF, "dl = DataLoader(dataset, batch_size=batch_size, collate_fn=dataset.collate_fn)\n\n        rewards", "dl = DataLoader(dataset, batch_size=batch_size)\n\n        rewards", "C17.a"),
